@@ -228,6 +228,16 @@ class MultiTypeMap(dict):
                 ]
                 if not rval:  # pragma: no cover
                     rval = list(candidates)
+                if len(rval) == 1:
+                    # A winner must dominate every other candidate. When
+                    # subclassing is not transitive (virtual subclasses) the
+                    # only undominated candidate may be unrelated to some:
+                    # they share its rank, which is therefore ambiguous.
+                    rval += [
+                        c
+                        for c in candidates
+                        if c is not rval[0] and not rval[0].dominates(c)
+                    ]
                 yield rval
                 candidates = [
                     c for c in candidates if not any(c is r for r in rval)
